@@ -1,0 +1,31 @@
+//go:build verif
+
+package render
+
+import "image/color"
+
+// Verification hook, compiled only with the build tag "verif". Add-only:
+// a read-only projection of the Renderer's virtual-machine state.
+
+type VerifState struct {
+	CReg             [64]color.RGBA
+	NReg             [64]float32
+	CSel, NSel       uint8
+	Lod0, Lod1       float32
+	Disabled         bool
+	PrevSmoothType   uint8
+	PrevSmoothPointX float32
+	PrevSmoothPointY float32
+	ScaleX, BiasX    float32
+	ScaleY, BiasY    float32
+}
+
+func (z *Renderer) VerifState() VerifState {
+	return VerifState{
+		CReg: z.cReg, NReg: z.nReg, CSel: z.cSel, NSel: z.nSel,
+		Lod0: z.lod0, Lod1: z.lod1, Disabled: z.disabled,
+		PrevSmoothType:   z.prevSmoothType,
+		PrevSmoothPointX: z.prevSmoothPointX, PrevSmoothPointY: z.prevSmoothPointY,
+		ScaleX: z.scaleX, BiasX: z.biasX, ScaleY: z.scaleY, BiasY: z.biasY,
+	}
+}
